@@ -44,6 +44,12 @@ Definition exp_part (x : Z) : bytes :=
   let a := Z.abs x in
   101 :: (if x <? 0 then 45 else 43) :: (if a <? 10 then 48 :: dec_nat a else dec_nat a).
 
+(** largest x with 10^x <= value, found from an estimate: [ge10 x] decides 10^x <= value *)
+Fixpoint exp10_down (fuel : nat) (ge10 : Z -> bool) (x : Z) : Z :=
+  match fuel with O => x | S f => if ge10 x then x else exp10_down f ge10 (x - 1) end.
+Fixpoint exp10_up (fuel : nat) (ge10 : Z -> bool) (x : Z) : Z :=
+  match fuel with O => x | S f => if ge10 (x + 1) then exp10_up f ge10 (x + 1) else x end.
+
 (** sprintf "%1.<P>g" of a finite double.  (The field width 1 never pads.) *)
 Definition fmt_g (P : Z) (d : dbl) : bytes :=
   match d with
@@ -52,10 +58,10 @@ Definition fmt_g (P : Z) (d : dbl) : bytes :=
       (* the exact value is num / den *)
       let num := if 0 <=? e then Zpos m * 2 ^ e else Zpos m in
       let den := if 0 <=? e then 1 else 2 ^ (- e) in
-      (* X = floor (log10 (num / den)) *)
-      let x0 := ndigits 2000 num - ndigits 2000 den in
-      let ge10 := if 0 <=? x0 then den * 10 ^ x0 <=? num else den <=? num * 10 ^ (- x0) in
-      let X := if ge10 then x0 else x0 - 1 in
+      (* X = floor (log10 (num / den)): an estimate from the bit lengths, then exact adjustment *)
+      let ge10 (x : Z) := if 0 <=? x then den * 10 ^ x <=? num else den <=? num * 10 ^ (- x) in
+      let x0 := ((Z.log2 num - Z.log2 den) * 30103) / 100000 in
+      let X := exp10_up 8 ge10 (exp10_down 8 ge10 x0) in
       (* the P-digit integer nearest to value / 10^(X - P + 1), ties to even *)
       let k := X - P + 1 in
       let N := if 0 <=? k then num else num * 10 ^ (- k) in
